@@ -274,8 +274,23 @@ def check_observer(chk, m, fn, cfg):
                    p.ret_inst.loc, fn.name)
         else:
             loads = [e for e in p.events if e.kind == "load" and _field(e.ptr, fn, m) in ("readi", "writei")]
-            if loads:
+            if not loads:
+                continue
+            # a constant result selected by branches: the path conditions must pin down readi == writei (for true) or != (false)
+            rl = [e.val for e in loads if _field(e.ptr, fn, m) == "readi"]
+            wl = [e.val for e in loads if _field(e.ptr, fn, m) == "writei"]
+            verdict = None
+            if r[0] == "c" and len(rl) == 1 and len(wl) == 1:
+                for c, taken, inst in p.conds:
+                    cc = strip_casts(c)
+                    if cc[0] == "icmp" and cc[1] in ("eq", "ne") and {strip_casts(cc[2]), strip_casts(cc[3])} == {rl[0], wl[0]}:
+                        verdict = (cc[1] == "eq") == bool(taken)
+            if verdict is None:
                 chk.unknown("R4.empty-observer", tag, "observer result is not readi == writei: %s" % fmt(r), p.ret_inst.loc)
+            else:
+                chk.ob("R4.empty-observer", tag + " -> " + str(bool(r[2])), verdict == bool(r[2]),
+                       "returns %s exactly on the branch where the two atomically loaded indices are %s" %
+                       (bool(r[2]), "equal" if verdict else "different"), p.ret_inst.loc, fn.name)
 
 
 def run_config(chk, cfg):
